@@ -75,6 +75,19 @@ func GenDataset(t *rapid.T) Dataset {
 	mo := o
 	mo.MaxDeg, mo.SingleChild, mo.Rooted, mo.Comments = 5, true, -1, true
 	d.Files["multi.nw"] = write([]*ref.Node{gen.Tree(t, mo)})
+	// a tree in which some branches have no length and some inner branches no support
+	mx := base.Clone()
+	k := 0
+	mx.Walk(func(x, p *ref.Node) {
+		k++
+		if k%3 == 0 {
+			x.Len = nil
+		}
+		if k%4 == 0 {
+			x.Sup = nil
+		}
+	})
+	d.Files["mixed.nw"] = write([]*ref.Node{mx})
 	go_ := gen.Opts{MinTips: 3, MaxTips: 4, Rooted: 1, MaxDeg: 2, Lens: gen.All, LenVals: gen.Arbitrary}
 	g := gen.Tree(t, go_)
 	g.Walk(func(x, p *ref.Node) {
@@ -215,6 +228,43 @@ func Templates() []Template {
 		T("asr-protein-x", "tree.nw", "asr", "-a", "prot.fa", "--algo", "downpass"),
 		T("asr-protein-x-acctran", "tree.nw", "asr", "-a", "prot.fa"),
 		T("asr-random-resolve", "tree.nw", "asr", "-a", "align.fa", "--random-resolve").seeded(),
+		// "bare" templates: no optional flag typed, input with absent lengths / supports, so that every
+		// option of the command is exercised as omitted
+		T("bare-brlen-add", "mixed.nw", "brlen", "add"),
+		T("bare-brlen-clear", "mixed.nw", "brlen", "clear"),
+		T("bare-brlen-cut", "mixed.nw", "brlen", "cut"),
+		T("bare-brlen-round", "mixed.nw", "brlen", "round"),
+		T("bare-brlen-scale", "mixed.nw", "brlen", "scale"),
+		T("bare-brlen-set", "mixed.nw", "brlen", "set"),
+		T("bare-brlen-setmin", "mixed.nw", "brlen", "setmin"),
+		T("bare-collapse-length", "mixed.nw", "collapse", "length"),
+		T("bare-collapse-support", "mixed.nw", "collapse", "support"),
+		T("bare-collapse-depth", "mixed.nw", "collapse", "depth"),
+		T("bare-support-round", "mixed.nw", "support", "round"),
+		T("bare-support-scale", "mixed.nw", "support", "scale"),
+		T("bare-support-clear", "mixed.nw", "support", "clear"),
+		T("bare-prune", "mixed.nw", "prune"),
+		T("bare-sample", "boot.nw", "sample").seeded(),
+		T("bare-matrix", "mixed.nw", "matrix"),
+		T("bare-stats", "mixed.nw", "stats"),
+		T("bare-labels", "mixed.nw", "labels"),
+		T("bare-draw-text", "mixed.nw", "draw", "text"),
+		T("bare-reformat-nexus", "mixed.nw", "reformat", "nexus"),
+		T("bare-reformat-phyloxml", "mixed.nw", "reformat", "phyloxml"),
+		T("bare-generate-uniform", "", "generate", "uniformtree").seeded(),
+		T("bare-generate-yule", "", "generate", "yuletree").seeded(),
+		T("bare-generate-caterpillar", "", "generate", "caterpillartree").seeded(),
+		T("bare-generate-balanced", "", "generate", "balancedtree").seeded(),
+		T("bare-generate-star", "", "generate", "startree").seeded(),
+		T("bare-unroot", "mixed.nw", "unroot"),
+		T("bare-resolve", "multi.nw", "resolve").seeded(),
+		T("bare-reroot-midpoint", "tree.nw", "reroot", "midpoint"),
+		T("bare-rotate-sort", "mixed.nw", "rotate", "sort"),
+		T("bare-nni", "mixed.nw", "nni"),
+		T("bare-comment-clear", "multi.nw", "comment", "clear"),
+		T("bare-compute-edgetrees", "mixed.nw", "compute", "edgetrees"),
+		T("bare-compute-consensus", "boot.nw", "compute", "consensus"),
+		T("prune-args-two", "mixed.nw", "prune", "@onetip.txt", "zz_absent"),
 		T("brlen-add", "tree.nw", "brlen", "add", "-l", "0.25"),
 		T("brlen-clear", "tree.nw", "brlen", "clear"),
 		T("brlen-cut", "tree.nw", "brlen", "cut", "-l", "0.1"),
